@@ -30,6 +30,24 @@ def vnorm(a): return math.sqrt(vdot(a, a))
 def vcross(a, b): return [a[1] * b[2] - b[1] * a[2], -a[0] * b[2] + b[0] * a[2], a[0] * b[1] - b[0] * a[1]]
 
 
+AMBIG = [False]
+
+
+def pd(case, a, b):
+    """colvarproxy_system::position_distance(a, b): minimum image of b - a in the orthorhombic cell of the case"""
+    d = vsub(b, a)
+    L = case.get("cell")
+    if not L:
+        return d
+    out = []
+    for x, l in zip(d, L):
+        y = x / l + 0.5
+        if abs(y - round(y)) < 1e-6:
+            AMBIG[0] = True          # within rounding of half a cell: the image is ambiguous
+        out.append(x - math.floor(y) * l)
+    return out
+
+
 def com(case, pos, g):
     if "dummy" in g:
         return list(g["dummy"])
@@ -72,7 +90,7 @@ def geom(case, comp, pos):
     geometry is from the documented singular configurations (>= 0.25 means comfortably regular)"""
     k = comp["kind"]
     if k == "distance":
-        d = vnorm(vsub(com(case, pos, comp["groups"][1]), com(case, pos, comp["groups"][0])))
+        d = vnorm(pd(case, com(case, pos, comp["groups"][0]), com(case, pos, comp["groups"][1])))
         return d, (2.0 / d if d else 0.0), d
     if k in ("distanceZ", "distanceXY"):
         gm, gr, g2 = comp["groups"]
@@ -81,19 +99,19 @@ def geom(case, comp, pos):
             ax = unit_axis(comp["axis"])
             an = 1.0
         else:
-            v12 = vsub(com(case, pos, g2), cr)
+            v12 = pd(case, cr, com(case, pos, g2))
             an = vnorm(v12)
             ax = vsc(1.0 / an, v12) if an > 0 else [1.0, 0.0, 0.0]
         if k == "distanceZ":
-            dv = vsub(cm, cr) if g2 is None else vsub(cm, vsc(0.5, vadd(cr, com(case, pos, g2))))
+            dv = pd(case, cr, cm) if g2 is None else pd(case, vadd(cr, vsc(0.5, pd(case, cr, com(case, pos, g2)))), cm)
             return vdot(ax, dv), 0.0, an
-        dv = vsub(cm, cr)
+        dv = pd(case, cr, cm)
         dvo = vsub(dv, vsc(vdot(dv, ax), ax))
         x = vnorm(dvo)
         return x, (1.0 / x if x else 0.0), min(x, an)
     if k == "angle":
         c1, c2, c3 = [com(case, pos, g) for g in comp["groups"]]
-        r21, r23 = vsub(c1, c2), vsub(c3, c2)
+        r21, r23 = pd(case, c2, c1), pd(case, c2, c3)
         l1, l3 = vnorm(r21), vnorm(r23)
         if l1 == 0 or l3 == 0:
             return 0.0, 0.0, 0.0
@@ -104,7 +122,7 @@ def geom(case, comp, pos):
         return 180.0 / math.pi * th, jd, min(l1, l3, 2.0 * (1.0 - abs(c)))
     if k == "dihedral":
         c1, c2, c3, c4 = [com(case, pos, g) for g in comp["groups"]]
-        r12, r23, r34 = vsub(c2, c1), vsub(c3, c2), vsub(c4, c3)
+        r12, r23, r34 = pd(case, c1, c2), pd(case, c2, c3), pd(case, c3, c4)
         A, B = vcross(r12, r23), vcross(r23, r34)
         nG = vnorm(r23)
         val = 180.0 / math.pi * math.atan2(vdot(A, r34) * nG, vdot(A, B))
@@ -149,7 +167,9 @@ def doc_fj(case, pos):
 
 
 def regular(case, pos):
-    return min(geom(case, c, pos)[2] for c in case["comps"])
+    AMBIG[0] = False
+    m = min(geom(case, c, pos)[2] for c in case["comps"])
+    return 0.0 if AMBIG[0] else m
 
 
 def comp_atoms(comp):
@@ -218,21 +238,25 @@ def comp_block(comp, single):
     return L
 
 
-def config_text(case):
+def other_block(case):
+    f = case["foreign"]
+    return ["colvar {", "  name other", "  distance {", "    group1 {", "      atomNumbers %d" % f[0], "    }",
+            "    group2 {", "      atomNumbers %d" % f[1], "    }", "  }", "}"]
+
+
+def config_text(case, with_other=True):
     L = ["colvar {", "  name v", "  outputTotalForce on", "  outputAppliedForce on"]
     if case["sub"]:
         L.append("  subtractAppliedForce on")
     for c in case["comps"]:
         L += comp_block(c, len(case["comps"]) == 1)
     L.append("}")
-    if case.get("foreign"):
-        f = case["foreign"]
-        L += ["colvar {", "  name other", "  distance {", "    group1 {", "      atomNumbers %d" % f[0], "    }",
-              "    group2 {", "      atomNumbers %d" % f[1], "    }", "  }", "}"]
+    if case.get("foreign") and with_other:
+        L += other_block(case)
     b = case["bias"]
     if b["type"] == "linear":
         L += ["linear {", "  colvars v", "  centers 0.0", "  forceConstant %r" % b["k"], "}"]
-    else:
+    elif b["type"] == "harmonic":
         L += ["harmonic {", "  colvars v", "  centers %r" % b["c"], "  forceConstant %r" % b["k"], "}"]
     return L
 
@@ -242,7 +266,15 @@ def scenario(case, k):
     for i, m in enumerate(case["masses"]):
         L.append("mass %d %s" % (i + 1, hx(m)))
     L += ["temperature %r" % case["T"], "samestep %d" % case["same"], "includecv %d" % case["inc"], "totalforces 1",
-          "nocell", "new", "config EOF"] + config_text(case) + ["EOF"] + (["hidej v"] if case["hide"] else []) + ["show tf 1 af 1 energy 0 bias 0"]
+          ("cell %r %r %r" % tuple(case["cell"])) if case.get("cell") else "nocell", "new"]
+    late = case.get("late", 0)
+    if late:
+        # the variable is defined while the simulation runs: `late` steps with another variable only
+        L += ["config EOF"] + other_block(case) + ["EOF", "show tf 1 af 1 energy 0 bias 0"]
+        for i, p in enumerate(case["steps"][0]["pos"]):
+            L.append("pos %d %s %s %s" % (i + 1, hx(p[0]), hx(p[1]), hx(p[2])))
+        L += ["step"] * late
+    L += ["config EOF"] + config_text(case, with_other=not late) + ["EOF"] + (["hidej v"] if case["hide"] else []) + ["show tf 1 af 1 energy 0 bias 0"]
     for s in case["steps"]:
         for i, p in enumerate(s["pos"]):
             L.append("pos %d %s %s %s" % (i + 1, hx(p[0]), hx(p[1]), hx(p[2])))
@@ -257,7 +289,7 @@ def scenario(case, k):
         else:
             for i, f in enumerate(ef):
                 L.append("eforce %d %s %s %s" % (i + 1, hx(f[0]), hx(f[1]), hx(f[2])))
-        L += ["step", "fj"]
+        L += ["step", "fj"] + (["rot v"] if any(c.get("rotate") for c in case["comps"]) else [])
     L.append("echo END %d" % k)
     return L
 
@@ -280,7 +312,7 @@ def parse_impl(lines):
             cs["complete"] = True
             cur = None
         elif w[0] == "CONFIG":
-            cs["config"] = l
+            cs["config"] = l if (cs["config"] is None or "err=ok" in cs["config"]) else cs["config"]
         elif w[0] == "STEP":
             cs["steps"].append({"err": w[2] if len(w) > 2 else "", "atomf": {}, "cv": {}, "tf": {}, "af": {}, "fj": {}, "fold": {}})
         elif cs["steps"]:
@@ -296,6 +328,8 @@ def parse_impl(lines):
                     st["fj"][w[1]] = float.fromhex(w[2])
                 elif w[0] == "FOLD":
                     st["fold"][w[1]] = float.fromhex(w[2])
+                elif w[0] == "ROT" and w[1] == "v":
+                    st.setdefault("rot", {})[int(w[2])] = [float.fromhex(x) for x in w[4:14]]
                 elif w[0] == "ATOMF":
                     st["atomf"][int(w[1])] = [float.fromhex(x) for x in w[2:5]]
             except ValueError:
@@ -323,6 +357,8 @@ def periodic(case):
 
 def bias_force(case, value):
     b = case["bias"]
+    if b["type"] == "none":
+        return 0.0
     if b["type"] == "linear":
         return -b["k"]
     d = value - b["c"]
@@ -360,6 +396,8 @@ def comp_txt(comp):
     ids = "%d %s" % (len(comp["ids"]), " ".join(str(a - 1) for a in comp["ids"]))
     if k == "gyration":
         return "GY " + ids
+    if comp.get("rotate"):
+        return ("RMR %s %s" % (ids, vl(comp["refs"]))) if k == "rmsd" else ("EVR %s %s %s" % (ids, vl(comp["refs"]), vl(comp["evec"])))
     cen = "N"
     if comp.get("center"):
         cen = "C " + vl([cog(comp["gref"], range(1, len(comp["ids"]) + 1))])
@@ -370,6 +408,7 @@ def comp_txt(comp):
 
 def model_line(case, isteps):
     p = ["RUN", str(case["n"])] + [hx(m) for m in case["masses"]]
+    p.append(("C " + vl([case["cell"]])) if case.get("cell") else "N")
     p += [hx(BOLTZ * case["T"]), "1" if case["hide"] else "0", "1" if case["sub"] else "0", "1" if case["same"] else "0",
           "1" if case["inc"] else "0", str(len(case["comps"]))]
     for c in case["comps"]:
@@ -379,7 +418,17 @@ def model_line(case, isteps):
         p.append(vl(s["pos"]))
         p.append(vl(step_eforce(case, isteps, t)))
         p.append(hx(bias_force(case, isteps[t]["cv"].get("v", float("nan")))))
+        for ci in rot_indices(case):
+            p.append(" ".join(hx(x) for x in isteps[t].get("rot", {}).get(ci, [1.0, 0, 0, 0, 1.0, 0, 0, 0, 1.0, 0.0])))
     return " ".join(p)
+
+
+def rot_indices(case):
+    """indices, in the implementation's component order (alphabetical by keyword, stable), of the rotated components
+    listed in configuration order"""
+    order = sorted(range(len(case["comps"])), key=lambda i: case["comps"][i]["kind"])
+    pos_in_impl = {ci: j for j, ci in enumerate(order)}
+    return [pos_in_impl[i] for i, c in enumerate(case["comps"]) if c.get("rotate")]
 
 
 def parse_model(line, n):
@@ -502,6 +551,8 @@ def gen_case(r, idx, typ=None, kinds=None):
         comps[0]["coeff"] = r.choice([-1.0, 2.0, -0.5])
     case["comps"] = comps
     case["foreign"] = [nvar + 1, nvar + 2] if nforeign >= 2 else []
+    if r.random() < 0.25:
+        case["cell"] = [r.choice([4.0, 8.0, 16.0]) for _ in range(3)]
     case["T"] = r.choice([0.0, 300.0, 300.0, 512.0])
     case["hide"] = r.random() < 0.35
     case["sub"] = r.random() < 0.35
@@ -511,7 +562,12 @@ def gen_case(r, idx, typ=None, kinds=None):
         case["bias"] = {"type": "linear", "k": V.dyadic(r, -4, 4, bits=2) or 1.0}
     else:
         case["bias"] = {"type": "harmonic", "k": r.choice([0.5, 1.0, 2.0]), "c": V.dyadic(r, -2, 6, bits=2)}
-    if periodic(case):      # a linear bias is refused on a periodic variable
+    if typ in ("LIN", "LOC", "TIM", "RND") and r.random() < 0.15:
+        case["bias"] = {"type": "none"}         # plain measurement: no bias applies a force to the variable
+        case["hide"] = False
+    if case["foreign"] and r.random() < 0.15:
+        case["late"] = r.randint(1, 2)          # the variable is defined after `late` steps of the run
+    if periodic(case) and case["bias"]["type"] != "none":      # a linear bias is refused on a periodic variable
         case["bias"] = {"type": "harmonic", "k": r.choice([0.0625, 0.125, 0.25]), "c": float(r.randint(-170, 170))}
 
     def geometry():
@@ -565,7 +621,8 @@ def gen_case(r, idx, typ=None, kinds=None):
 
 
 def rot_case(r, kind):
-    """rmsd / eigenvector in the optimally rotated frame (the default fit), temperature 0: inverse oracle only (no model)"""
+    """rmsd / eigenvector in the optimally rotated frame (the default fit): tied to the model (rotation matrix and
+    Jacobian derivative taken from the implementation); the inverse oracle applies at temperature 0"""
     c = None
     while c is None:
         c = gen_case(r, 0, "INV", [kind])
@@ -578,7 +635,9 @@ def rot_case(r, kind):
     cc.pop("gref", None)
     if kind == "eigenvector":
         cc["evec"] = [[V.dyadic(r, -2, 2, bits=3) for _ in range(3)] for _ in range(k)]
-    c.update({"type": "ROT", "T": 0.0, "invok": True, "hide": False})
+    T = r.choice([0.0, 0.0, 300.0])
+    c.update({"type": "ROT", "T": T, "invok": T == 0.0, "hide": False if T == 0.0 else c["hide"]})
+    c.pop("late", None)
     if c["bias"]["type"] == "harmonic":
         c["bias"] = {"type": "linear", "k": V.dyadic(r, 1, 4, bits=2)}
     z = [[0.0, 0.0, 0.0] for _ in range(n)]
@@ -662,6 +721,10 @@ def oracle(case, isteps):
                                 t, f, tfs[t], exp, "without the hidden" if case["hide"] else "plus the", fj,
                                 ", minus the applied force (subtractAppliedForce)" if case["sub"] and not case["same"] else "")))
                 break
+    if not case["same"] and tfs[0] != 0.0:
+        out.append(("timing:first-step:%s%s" % (kd, ":late" if case.get("late") else ""),
+                    "lagged convention: at the first step at which the variable is computed%s nothing can have been measured, "
+                    "but the reported total force is %r" % (" (it was defined after %d steps of the run)" % case["late"] if case.get("late") else "", tfs[0])))
     typ = case["type"]
     first = 0 if case["same"] else 1     # report of step t is about step t (same step) or t-1 (lagged)
     if typ == "LIN" and len(tfs) >= 5:
@@ -761,6 +824,13 @@ class Runner:
                     res[k] = {"steps": [], "raw": [], "complete": False, "config": None}
                 if rc1 != 0:
                     crashed[k] = rc1
+        for k, c in enumerate(cases):       # steps made before a late definition are not the variable's
+            late = c.get("late", 0)
+            if late and k in res:
+                pre = res[k]["steps"][:late]
+                res[k]["steps"] = res[k]["steps"][late:]
+                if any(st["err"] != "err=ok" for st in pre) and res[k]["steps"]:
+                    res[k]["steps"][0]["err"] = "err=pre-steps"
         return res, crashed
 
     def models(self, cases, impl):
@@ -779,7 +849,7 @@ class Runner:
 
 def process(run, runner, cases, sample=0):
     impl, crashed = runner.impl(cases)
-    mods = runner.models([c if c["type"] != "ROT" else dict(c, steps=[]) for c in cases], impl)
+    mods = runner.models(cases, impl)
     for k, c in enumerate(cases):
         kd = kinds_of(c)
         mode = "samestep" if c["same"] else "lagged"
@@ -804,8 +874,6 @@ def process(run, runner, cases, sample=0):
         run.count(json.dumps(c, sort_keys=True), bool(nontriv) and any(s["tf"].get("v") not in (None, 0.0) for s in isteps))
         for sig, text in oracle(c, isteps):
             run.violation(sig, text, rp)
-        if c["type"] == "ROT":
-            continue
         ml, ms = mods.get(k, (None, None))
         bad = compare(c, isteps, ms)
         if bad:
@@ -831,6 +899,33 @@ def process_twins(run, runner, cases):
         run.dist("twin:subtract")
         for sig, text in oracle_twin(c, a["steps"], b["steps"]):
             run.violation(sig, text, {"kind": "twin", "case": c, "scenario": scenario(c, 0), "twin_scenario": scenario(twins[k], 0)})
+
+
+def process_bias_twins(run, runner, cases):
+    """with and without a bias applying a force: where the engine's total force does not contain Colvars' forces
+    (same-step convention, or lagged with includecv off) the reported total force is the same"""
+    twins = []
+    for c in cases:
+        t = copy.deepcopy(c)
+        t["bias"] = {"type": "none"}
+        twins.append(t)
+    ia, _ = runner.impl(cases)
+    ib, _ = runner.impl(twins)
+    for k, c in enumerate(cases):
+        a, b = ia.get(k), ib.get(k)
+        if not (a and b and a["complete"] and b["complete"] and len(a["steps"]) == len(c["steps"]) == len(b["steps"])):
+            continue
+        run.dist("twin:nobias")
+        for t in range(len(c["steps"])):
+            x, y = a["steps"][t]["tf"].get("v"), b["steps"][t]["tf"].get("v")
+            if x is None or y is None or x != x:
+                continue
+            if not close(x, y, 1e-8):
+                run.violation("nobias:%s:%s" % (kinds_of(c), "samestep" if c["same"] else "lagged"),
+                              "step %d: total force %r with a bias on the variable, %r without any (the engine's total force does not "
+                              "contain Colvars' forces in this scenario, so the two must agree)" % (t, x, y),
+                              {"kind": "scenario", "case": twins[k], "scenario": scenario(twins[k], 0), "with_bias_scenario": scenario(c, 0)})
+                break
 
 
 def load_corpus():
@@ -896,7 +991,7 @@ def check(run):
             while c is None or not c["comps"][0].get("onesite") or c["same"] != same:
                 c = gen_case(r, 0, "LOC", [kind])
             first.append(c)
-    for i in range(8 if quick else 400):          # rotated frames: search only
+    for i in range(24 if quick else 1200):          # rotated frames
         first.append(rot_case(r, "rmsd" if i % 2 == 0 else "eigenvector"))
     n = 420 if quick else 12000
     cases = list(first)
@@ -918,7 +1013,13 @@ def check(run):
     tw = tw[:120 if quick else 3000]
     for b0 in range(0, len(tw), B):
         process_twins(run, runner, tw[b0:b0 + B])
-    run.cov["correspondence"].update({"scenarios": len(cases), "subtract_twins": len(tw)})
+    bt = [c for c in cases if c["type"] in ("LIN", "LOC", "TIM", "RND") and c["bias"]["type"] != "none" and not c["hide"]
+          and (c["same"] or (not c["inc"] and not c["sub"])) and not c.get("late") and not any(isinstance(s["ef"], dict) for s in c["steps"])
+          and not any(cc["kind"] == "eigenvector" for cc in c["comps"])]
+    bt = bt[:80 if quick else 2000]
+    for b0 in range(0, len(bt), B):
+        process_bias_twins(run, runner, bt[b0:b0 + B])
+    run.cov["correspondence"].update({"scenarios": len(cases), "subtract_twins": len(tw), "nobias_twins": len(bt)})
 
 
 def replay(path):
